@@ -100,4 +100,3 @@ Section Sampler.
     map (fun c => fst (w_chain w c)) (if w_stop w then w_ran w else seq 0 nchain).
 End Sampler.
 
-Arguments TInit {_}. Arguments TIter {_}. Arguments TFin {_}.
